@@ -959,7 +959,8 @@ func runL5(args []string) {
 	rep.Rule = "sequential histories over {newS,newD,run(s,d,shape) (also failing at the driver, also over an undecodable row),mkq/runq (a Query kept and run later, the same Query object twice)," +
 		"dropS,dropD,gc} (1-4 Statements x 1-3 DBs x 9 argument shapes, single pooled connection, forced GC to " +
 		"quiescence at every gc, a directed eviction opening in a quarter of them) compared exactly with the model's log segments, cache content and prepares per operation; plus concurrent runs " +
-		"(256 Statements prepared at once, 2-6 goroutines, 4 pooled connections, open iterators, transactions running several shapes and overlapping on one cached statement, eviction stress, " +
+		"(256 Statements prepared and some fifty DBs created at once, half of those DBs dropped while the others run again, two DB values over one sql.DB, 2-6 goroutines, 4 pooled connections, statements with outputs / without / a bulk insert with explicit members, " +
+		"open iterators, transactions running several shapes and overlapping on one cached statement, Query objects of a transaction run twice and after its end, a transaction's connection lost, contexts ending as Prepare returns, eviction stress, " +
 		"GC at random points) checked by invariants; non-trivial = at least one eviction or finalizer-driven close; distinct by hash of the history"
 	r := rng.New(*seed)
 	dist := map[string]int{}
